@@ -164,7 +164,7 @@ func Run(ctx *Ctx, p *Property, level string) int {
 			pathStats = append(pathStats, map[string]interface{}{"entry": fn, "paths": rep.Paths, "non_error_paths": rep.OkPaths, "error_paths": rep.ErrPaths, "infeasible": rep.Infeasible,
 				"outside_grammar": rep.OutOfGrammar, "text_level_only": rep.TextOnly, "semantic_clauses_checked": !g.NoVC})
 			for _, r := range rep.Results {
-				if g.Only != nil && !g.Only(r) {
+				if g.Only != nil && !g.Only(r) && r.Kind != "contract-applies" {
 					continue
 				}
 				all = append(all, r)
